@@ -120,10 +120,10 @@ impl IntRect {
     /// Insets the rectangle.
     pub fn inset(&self, dx: i32, dy: i32) -> Option<Self> {
         IntRect::from_ltrb(
-            self.left() + dx,
-            self.top() + dy,
-            self.right() - dx,
-            self.bottom() - dy,
+            self.left().checked_add(dx)?,
+            self.top().checked_add(dy)?,
+            self.right().checked_sub(dx)?,
+            self.bottom().checked_sub(dy)?,
         )
     }
 
@@ -139,7 +139,12 @@ impl IntRect {
 
     /// Translates the rect by the specified offset.
     pub fn translate(&self, tx: i32, ty: i32) -> Option<Self> {
-        IntRect::from_xywh(self.x() + tx, self.y() + ty, self.width(), self.height())
+        IntRect::from_xywh(
+            self.x().checked_add(tx)?,
+            self.y().checked_add(ty)?,
+            self.width(),
+            self.height(),
+        )
     }
 
     /// Translates the rect to the specified position.
